@@ -298,6 +298,14 @@ impl<'a> RefEval<'a> {
         }
     }
 
+    /// A reference to a known value stands for that value where an object is required.
+    fn unwrap_ref(mut v: Value_) -> Value_ {
+        while let Val::Ref(_, Some(inner)) = v.0 {
+            v = *inner;
+        }
+        v
+    }
+
     fn flag(&mut self, f: &str) {
         if !self.flags.iter().any(|x| x == f) {
             self.flags.push(f.to_owned());
@@ -476,7 +484,7 @@ impl<'a> RefEval<'a> {
                             Val::Str(s) => c.media = Some(s),
                             o => return Err(RefErr::Undefined(format!("media not a string: {o:?}"))),
                         },
-                        MetaK::Headers => match v.0 {
+                        MetaK::Headers => match Self::unwrap_ref(v).0 {
                             Val::Obj(ps) => {
                                 self.check_dup_props(&ps, "dup-header-name");
                                 c.headers = Some(ps)
